@@ -620,68 +620,7 @@ impl Sim {
                 req.outcome = Outcome::Cancelled;
                 req.cancelled_step = Some(step);
             }
-            Ev::DialOk(d) => world::with(|w| {
-                let dial = &mut w.dials[d as usize];
-                dial.stage = DialStage::Connected;
-                if let Some(wk) = dial.waker.take() {
-                    wk.wake();
-                }
-            }),
-            Ev::DialFail(d) => world::with(|w| {
-                let dial = &mut w.dials[d as usize];
-                dial.stage = DialStage::ConnectFailed;
-                if let Some(wk) = dial.waker.take() {
-                    wk.wake();
-                }
-            }),
-            Ev::HsOk(d) => world::with(|w| {
-                let dial = &mut w.dials[d as usize];
-                dial.stage = DialStage::HsOk;
-                if let Some(wk) = dial.waker.take() {
-                    wk.wake();
-                }
-            }),
-            Ev::HsFail(d) => world::with(|w| {
-                let dial = &mut w.dials[d as usize];
-                dial.stage = DialStage::HsFailed;
-                if let Some(wk) = dial.waker.take() {
-                    wk.wake();
-                }
-            }),
-            Ev::Respond(r) => world::with(|w| {
-                if let Some(x) = w.exchanges.iter_mut().find(|x| x.req == r && !x.responded && !x.dropped) {
-                    x.responded = true;
-                    if let Some(wk) = x.waker.take() {
-                        wk.wake();
-                    }
-                }
-            }),
-            Ev::ConnReady(c) => world::with(|w| {
-                let cs = &mut w.conns[c as usize];
-                cs.busy = false;
-                for wk in cs.ready_wakers.drain(..) {
-                    wk.wake();
-                }
-            }),
-            Ev::ConnClose(c) => world::with(|w| {
-                let step = w.step;
-                let cs = &mut w.conns[c as usize];
-                cs.open = false;
-                cs.close_step = Some(step);
-                for wk in cs.ready_wakers.drain(..) {
-                    wk.wake();
-                }
-            }),
-            Ev::Upgrade(c) => world::with(|w| {
-                let step = w.step;
-                let cs = &mut w.conns[c as usize];
-                cs.open = false;
-                cs.upgraded = true;
-                cs.close_step = Some(step);
-                for wk in cs.ready_wakers.drain(..) {
-                    wk.wake();
-                }
-            }),
+            Ev::DialOk(_) | Ev::DialFail(_) | Ev::HsOk(_) | Ev::HsFail(_) | Ev::Respond(_) | Ev::ConnReady(_) | Ev::ConnClose(_) | Ev::Upgrade(_) => apply_env(e),
             Ev::RunBg(t) => {
                 actor = Actor::Bg(t);
                 world::set_actor(Some(actor));
@@ -745,11 +684,7 @@ impl Sim {
             Ev::Tick(k) => {
                 self.ticks_used += 1;
                 // in quarters of T
-                let q = match k {
-                    0 => 2,
-                    1 => 8,
-                    _ => 3,
-                };
+                let q = tick_quarters(k);
                 self.clock_half_t += q;
                 hooks::advance_clock(Duration::from_millis(self.cfg.t_ms * q / 4));
                 // the same amount of virtual tokio time, so that timers created by pool code fire
@@ -977,6 +912,86 @@ impl Sim {
         }
         self.draining = false;
         false
+    }
+}
+
+
+/// Length of tick `k` in quarters of T.
+pub fn tick_quarters(k: u8) -> u64 {
+    match k {
+        0 => 2,
+        1 => 8,
+        _ => 3,
+    }
+}
+
+/// The environment events: one mutation of the harness world plus the wake-ups it causes. No call into the
+/// library happens here, so the interleaving engine can run one of these between two steps of an operation.
+pub fn apply_env(e: Ev) {
+    match e {
+        Ev::DialOk(d) => world::with(|w| {
+            let dial = &mut w.dials[d as usize];
+            dial.stage = DialStage::Connected;
+            if let Some(wk) = dial.waker.take() {
+                wk.wake();
+            }
+        }),
+        Ev::DialFail(d) => world::with(|w| {
+            let dial = &mut w.dials[d as usize];
+            dial.stage = DialStage::ConnectFailed;
+            if let Some(wk) = dial.waker.take() {
+                wk.wake();
+            }
+        }),
+        Ev::HsOk(d) => world::with(|w| {
+            let dial = &mut w.dials[d as usize];
+            dial.stage = DialStage::HsOk;
+            if let Some(wk) = dial.waker.take() {
+                wk.wake();
+            }
+        }),
+        Ev::HsFail(d) => world::with(|w| {
+            let dial = &mut w.dials[d as usize];
+            dial.stage = DialStage::HsFailed;
+            if let Some(wk) = dial.waker.take() {
+                wk.wake();
+            }
+        }),
+        Ev::Respond(r) => world::with(|w| {
+            if let Some(x) = w.exchanges.iter_mut().find(|x| x.req == r && !x.responded && !x.dropped) {
+                x.responded = true;
+                if let Some(wk) = x.waker.take() {
+                    wk.wake();
+                }
+            }
+        }),
+        Ev::ConnReady(c) => world::with(|w| {
+            let cs = &mut w.conns[c as usize];
+            cs.busy = false;
+            for wk in cs.ready_wakers.drain(..) {
+                wk.wake();
+            }
+        }),
+        Ev::ConnClose(c) => world::with(|w| {
+            let step = w.step;
+            let cs = &mut w.conns[c as usize];
+            cs.open = false;
+            cs.close_step = Some(step);
+            for wk in cs.ready_wakers.drain(..) {
+                wk.wake();
+            }
+        }),
+        Ev::Upgrade(c) => world::with(|w| {
+            let step = w.step;
+            let cs = &mut w.conns[c as usize];
+            cs.open = false;
+            cs.upgraded = true;
+            cs.close_step = Some(step);
+            for wk in cs.ready_wakers.drain(..) {
+                wk.wake();
+            }
+        }),
+        _ => unreachable!("not an environment event"),
     }
 }
 
